@@ -235,7 +235,7 @@ def run(ctx):
         flush(ctx, drv)
     for fam_fmt in ("podGac", "klmGac"):
         for k in range(len(filegen.PLATFORMS[filegen.FMT[fam_fmt]["family"]])):
-            fmt = fam_fmt if k % 3 else fam_fmt.replace("Gac", "Lac")
+            fmt = fam_fmt if k % 6 else fam_fmt.replace("Gac", "Lac")
             check_pass(ctx, fmt, 3, ctx.seed * 1000 + 800 + k, drv, "random", plat=k)
             flush(ctx, drv)
     for j, fmt in enumerate(["klmGac", "podGac", "klmLac", "podLac"][: (4 if (ctx.thorough or getattr(ctx, "escalated", False)) else 2)]):
